@@ -889,8 +889,49 @@ func rulePtrRead(w *World, r *Report, pkg *ssa.Package) {
 func rulePrepend(w *World, r *Report, pkg *ssa.Package) {
 	const rule = "R-PREPEND"
 	fn := w.Func(pkg, "ReadPatchString")
-	r.Fn(fnName(fn))
 	h := newHunkType(pkg)
+	// the coalescing step may live in a helper the reader calls (benign E-r3): take the first function
+	// reached from the reader (depth 2) that stores into a hunk's Add
+	{
+		coalesces := func(f *ssa.Function) bool {
+			for _, fs := range h.fieldStores(f, "Add") {
+				if c, ok := strip(fs.st.Val).(*ssa.Call); ok {
+					if b, ok := c.Call.Value.(*ssa.Builtin); ok && b.Name() == "append" && len(c.Call.Args) == 2 {
+						_, sel0 := accessPath(c.Call.Args[0])
+						_, sel1 := accessPath(c.Call.Args[1])
+						if strings.HasSuffix(selString(sel0), ".Add") && strings.HasSuffix(selString(sel1), ".Add") {
+							return true
+						}
+					}
+				}
+			}
+			return false
+		}
+		seen := map[*ssa.Function]bool{}
+		var find func(f *ssa.Function, depth int) *ssa.Function
+		find = func(f *ssa.Function, depth int) *ssa.Function {
+			if f == nil || f.Blocks == nil || seen[f] || depth > 2 || fnPkg(f) != pkg.Pkg {
+				return nil
+			}
+			seen[f] = true
+			if coalesces(f) {
+				return f
+			}
+			var out *ssa.Function
+			allInstrs(f, func(in ssa.Instruction) {
+				if c, ok := in.(*ssa.Call); ok && out == nil {
+					out = find(staticCallee(c), depth+1)
+				}
+			})
+			return out
+		}
+		if !coalesces(fn) {
+			if g := find(fn, 0); g != nil {
+				fn = g
+			}
+		}
+	}
+	r.Fn(fnName(fn))
 	ok := false
 	var pos token.Pos
 	for _, fs := range h.fieldStores(fn, "Add") {
